@@ -334,6 +334,12 @@ func (r *Run) Snapshot() string {
 	}
 	sort.Strings(wl)
 	fmt.Fprintf(&sb, "wallets %s\n", strings.Join(wl, " "))
+	// the keystores the in-memory keystore manager holds (a failed CreateWallet / import must not
+	// leave one behind: filterTx and getReadyWallets consult this table)
+	_, _, _, ksm, _ := r.W.WM.VerifStores()
+	names := append([]string{}, ksm.ListKeystoreNames()...)
+	sort.Strings(names)
+	fmt.Fprintf(&sb, "cached-keystores %s\n", strings.Join(names, " "))
 	for _, num := range r.activeNums() {
 		id := r.S.Wallets[num].ID
 		info, err := r.W.WM.UseWallet(id)
